@@ -96,8 +96,16 @@ def replay(states, entry, lookbacks, rng):
             dates[a] = rng.choice([ts(bday(e) * 1440 + 1260), ts(bday(e - 1) * 1440 + 1261) if e > 1 else ts(DAY0 * 1440 + 1)])
     uni = DynamicUniverse(dict((nm[a], d) for a, d in dates.items()))
     lbs = sorted(lookbacks)
-    sigs = {"mom": MomentumSignal(start, uni, list(lbs)), "sma": SMASignal(start, uni, list(lbs)),
-            "vol": VolatilitySignal(start, uni, list(lbs))}
+    # one collection, three signals: over the same universe, or each over its own part of it (a signal must only ever
+    # see the assets of ITS universe)
+    members = dict(mom=set(dates), sma=set(dates), vol=set(dates))
+    if rng.random() < 0.5 and len(dates) >= 2:
+        names_ = sorted(dates)
+        members["sma"] = set(rng.sample(names_, len(names_) - 1))
+        members["vol"] = set(rng.sample(names_, 1))
+    sub = lambda kind: uni if members[kind] == set(dates) else DynamicUniverse(dict((nm[a], d) for a, d in dates.items() if a in members[kind]))
+    sigs = {"mom": MomentumSignal(start, sub("mom"), list(lbs)), "sma": SMASignal(start, sub("sma"), list(lbs)),
+            "vol": VolatilitySignal(start, sub("vol"), list(lbs))}
     dh = _Handler()
     coll = SignalsCollection(sigs, dh)
     out = []
@@ -110,8 +118,9 @@ def replay(states, entry, lookbacks, rng):
             coll.update(ts(bday(S["tick"]) * 1440 + 1260))
             n += 1
         win, sig = asdict(S["win"]), asdict(S["sig"])
-        tracked = set(S["tracked"])
+        tracked_all = set(S["tracked"])
         for kind, sobj in sigs.items():
+            tracked = tracked_all & members[kind]
             if set(back.get(x, x) for x in sobj.assets) != tracked or len(sobj.assets) != len(tracked):
                 out.append((k, "tracked", "%s tracks %s, expected %s" % (kind, sobj.assets, sorted(tracked))))
             for a in tracked:
